@@ -82,7 +82,10 @@ public:
       // But we leave it here (don't even narrow result).
       // Gurobi 10 does not handle a<0 && lbx<0.
     } else {
-      auto lbr = std::pow(m.lb(arg), pwr),
+      auto lbx = m.lb(arg);
+      if (0.0 == lbx)
+        lbx = 0.0;                     // -0.0 ^ -1 would be -inf
+      auto lbr = std::pow(lbx, pwr),
           ubr = std::pow(m.ub(arg), pwr);
       if (pow_int && pwr>=0.0) {
         // result integer if x integer, a>=0
